@@ -240,7 +240,7 @@ func chaosPass(c *choice.Src, o engine.Opt, out *engine.Out, skip bool) *chaosWo
 	w := &World{c: c, o: o, out: out, prop: o.Property}
 	cw := &chaosWorld{World: w, skip: skip}
 	w.proto = c.Choose(3, "proto")
-	if o.Property == "C09" && c.Bool(1, 32, "boundary-config") {
+	if (o.Property == "C09" || o.Property == "C10") && c.Bool(1, 32, "boundary-config") {
 		boundaryConfig(cw)
 		return cw
 	}
@@ -575,6 +575,14 @@ func boundaryConfig(cw *chaosWorld) {
 		err, p := w.call(n, what, f)
 		w.ev("  %s -> %s", what, errClass(err))
 		w.out.SimTime["api_calls"]++
+		// the lifecycle calls of this short life are all legal (C10): Start on a fresh instance,
+		// the two timeouts, End after both
+		got := errClass(err)
+		legal := map[string]string{"Start": "nil", "NextTimeout": "nil", "End": "nil|failure"}
+		if want, ok := legal[what]; ok && !p && got != "nil" && !(want == "nil|failure" && got == "failure") {
+			w.viol("C10", "model.errclass", fmt.Sprintf("statemachine:%s:%s:boundary-config:got-%s-want-%s", protoName[w.proto], what, got, want),
+				"%s on an instance of size %d (threshold %d, index %d) returned %v although the documented state machine accepts it", what, w.n, w.t, n.idx, err)
+		}
 		return !p
 	}
 	if !step("Start", func() error { return n.st.Start(seed) }) {
